@@ -100,13 +100,13 @@ func c19Rand(r *rand.Rand) absDesc {
 }
 
 func absToEv(a absDesc) Ev {
-	return Ev{"type": a.Type, "eid": a.Eid, "haspts": a.HasPTS, "pts": W64(a.PTS), "segnum": a.SegNum, "segexp": a.SegExp,
+	return Ev{"type": a.Type, "eid": []int{a.Eid >> 31, a.Eid & 0x7fffffff}, "haspts": a.HasPTS, "pts": W64(a.PTS), "segnum": a.SegNum, "segexp": a.SegExp,
 		"hassub": a.HasSub, "subnum": a.SubNum, "subexp": a.SubExp}
 }
 
 func evToAbs(v interface{}) absDesc {
 	m := asMap(v)
-	return absDesc{Type: GI(m["type"]), Eid: GI(m["eid"]), HasPTS: GBool(m["haspts"]), PTS: UW64(m["pts"]),
+	return absDesc{Type: GI(m["type"]), Eid: GIs(m["eid"])[0]<<31 | GIs(m["eid"])[1], HasPTS: GBool(m["haspts"]), PTS: UW64(m["pts"]),
 		SegNum: GI(m["segnum"]), SegExp: GI(m["segexp"]), HasSub: GBool(m["hassub"]), SubNum: GI(m["subnum"]), SubExp: GI(m["subexp"])}
 }
 
